@@ -93,5 +93,5 @@ FloatDenote(neg, ip, fp, ex) ==
       p == ex - Len(fp)                \* value = n * 10^p
   IN IF n = <<>> THEN Zero(neg)
      ELSE IF p >= 0 THEN Round(Fin(neg, MMul(n, Pow5(p)), p))
-     ELSE LET qr == MDivMod(n, Pow5(-p)) IN IF qr[2] = <<>> THEN Round(Fin(neg, qr[1], p)) ELSE Indef
+     ELSE RoundQuot(neg, n, Pow5(-p), p)              \* n / 5^-p * 2^p, correctly rounded
 =============================================================================
